@@ -90,6 +90,12 @@ def main():
         table += "| %s | %s | %s | %s | %s |\n" % r
     with open(os.path.join(S, "MATRIX.md"), "w") as f:
         f.write(table)
+    dp = os.path.join(HERE, "DESIGN.md")
+    d = open(dp).read()
+    b, e = "<!-- MATRIX:BEGIN -->", "<!-- MATRIX:END -->"
+    if b in d and e in d:
+        d = d[: d.index(b) + len(b)] + "\n" + table + d[d.index(e):]
+        open(dp, "w").write(d)
     print(table)
 
 
